@@ -148,6 +148,9 @@ func corrDiff(c *Case, o *Obs, m *MObs) string {
 				return "file-change"
 			}
 		case "error":
+			if string(o.FileAfter) != string(c.fileBytes()) {
+				return "file-change"
+			}
 		default:
 			if common.Hex(o.FileAfter) != m.Change {
 				return "file-change"
